@@ -512,7 +512,7 @@ def block_malformed(ctx, fens, san_by_fen, quick, nproc):
                 bad = "decorated PGN of a tree written by the real writer does not read back to the same tree"
         if bad and nviol < 3:
             nviol += 1
-            ctx.violation(bad + f": {m[1][:200]!r}", {"kind": "property-predicate", "tie": "pgn-roundtrip", "input": [l], "impl_output": a[:2000], "expected_writer_text": m[2]})
+            ctx.violation(bad + f": {m[1][:200]!r}", {"kind": "property-predicate", "tie": "pgn-roundtrip", "input": [l], "impl_output": a[:2000], "expected_writer_text": m[2] if len(m) > 2 else None})
         elif a != b and nviol < 3:
             nviol += 1
             ctx.violation(f"malformed-stream: result class differs on {m[0]} input {m[1][:80]!r}: impl `{a[:160]}` model `{b[:160]}`",
